@@ -8,12 +8,14 @@
 package main
 
 import (
+	"context"
 	"encoding/binary"
 	"fmt"
 	"os"
 	"strings"
 	"time"
 
+	"github.com/google/gce-tcb-verifier/endorse"
 	"github.com/google/gce-tcb-verifier/ovmf"
 	"github.com/google/gce-tcb-verifier/ovmf/abi"
 	"github.com/google/gce-tcb-verifier/sev"
@@ -337,6 +339,14 @@ var eps = []struct {
 		_, e := tdx.UnsignedTDX(img, &tdx.EndorsementRequest{MachineShapes: []string{"c3-standard-4"}, IncludeEarlyAccept: true})
 		return errClass(e)
 	}},
+	{"endorse.GoldenMeasurement(snp+tdx)", func(img []byte) string {
+		// the entry point behind the endorse command, with both technologies requested at once
+		ctx := endorse.NewContext(context.Background(), &endorse.Context{Image: img, Timestamp: fx.T0, ClSpec: 1,
+			SevSnp: &sev.SnpEndorsementRequest{LaunchVmsas: 1, ImageID: "87654321-dead-beef-c0de-123456789abc", Product: sgpb.SevProduct_SEV_PRODUCT_MILAN},
+			Tdx:    &tdx.EndorsementRequest{}})
+		_, e := endorse.GoldenMeasurement(ctx)
+		return errClass(e)
+	}},
 	{"ovmf.ExtractMaterialGuestPhysicalRegions*", func(img []byte) string {
 		_, e1 := ovmf.ExtractMaterialGuestPhysicalRegions(img)
 		_, e2 := ovmf.ExtractMaterialGuestPhysicalRegionsTDHOBBug(img, banks)
@@ -380,7 +390,7 @@ func main() {
 	r := mc.NewRun("C08")
 	defer kmfx.Cleanup()
 	tier := r.Tier
-	r.Rule("E5 + guarded workers: two valid baseline images (12 KiB and 4 KiB, SNP + TDX metadata); every 16/32/64-bit little-endian value at every byte offset of the GUID table, SEV metadata and TDVF metadata set to a menu of boundary/overflow values {0,1,15..23,0x1000,len-1,len,len+1,remaining,2^31-1,2^31,2^32-16,2^32-1,2^32/12(+-1),2^32/32(+-1)} (+ 64-bit {2^26,2^30,2^32,2^40,2^56,2^63,2^64-1,...}); truncations; all images <=12 bytes over {00,ff}; thorough adds pairs of 64-bit extremes inside the TDVF metadata and every truncation length; x 9 entry points; oracle: no panic, death or 8 s horizon (3x confirmation at 5x), allocation <= 256 MiB + 64 x image length; non-trivial = distinct (entry point, outcome class)")
+	r.Rule("E5 + guarded workers: two valid baseline images (12 KiB and 4 KiB, SNP + TDX metadata); every 16/32/64-bit little-endian value at every byte offset of the GUID table, SEV metadata and TDVF metadata set to a menu of boundary/overflow values {0,1,15..23,0x1000,len-1,len,len+1,remaining,2^31-1,2^31,2^32-16,2^32-1,2^32/12(+-1),2^32/32(+-1)} (+ 64-bit {2^26,2^30,2^32,2^40,2^56,2^63,2^64-1,...}); truncations; all images <=12 bytes over {00,ff}; thorough adds pairs of 64-bit extremes inside the TDVF metadata and every truncation length; x 10 entry points; oracle: no panic, death or 8 s horizon (3x confirmation at 5x), allocation <= 256 MiB + 64 x image length; non-trivial = distinct (entry point, outcome class)")
 	g, id := build(tier)
 	g.WorkerEnv = []string{"VERIF_C08_TIER=" + tier}
 	if r.Replaying() {
